@@ -145,11 +145,33 @@ func (c *Coll) Dump(flavor int) []uint32 {
 	sorted := map[string][][2]any{}
 	c.C.Query(func(txn *column.Txn) error {
 		tcount = txn.Count()
+		probes := make([]func() bool, len(c.Cols))
+		for i, d := range c.Cols {
+			probes[i] = presenceProbe(txn, d)
+		}
+		w.tmu.Lock()
+		trackedNow := make(map[uint32]bool, len(w.tracked))
+		for o := range w.tracked {
+			trackedNow[o] = true
+		}
+		w.tmu.Unlock()
 		txn.Range(func(idx uint32) {
 			offs = append(offs, idx)
-			tracked := w.IsTracked(idx)
+			tracked := trackedNow[idx]
 			if tracked && flavor != 1 {
 				return
+			}
+			if !tracked {
+				bare := true
+				for _, pr := range probes {
+					if pr() {
+						bare = false
+						break
+					}
+				}
+				if bare {
+					return
+				}
 			}
 			v := Ev{}
 			any := false
@@ -182,52 +204,59 @@ func (c *Coll) Dump(flavor int) []uint32 {
 	for o := range untrackedWithValue {
 		w.Track(o)
 	}
-	// point reads for the other flavors
-	if flavor != 1 {
-		c.C.Query(func(txn *column.Txn) error {
-			for _, o := range offs {
-				if !w.IsTracked(o) || vals[o] != nil {
-					continue
-				}
-				txn.QueryAt(o, func(r column.Row) error {
-					v := Ev{}
-					for _, d := range c.Cols {
-						v[d.Name] = c.ReadRow(txn, r, d, flavor)
-					}
-					vals[o] = v
-					if flavor == 0 {
-						m := Ev{}
-						for _, x := range c.Idx {
-							m[x.Name] = r.Bool(x.Name)
-						}
-						ix[o] = m
-					}
-					return nil
-				})
-			}
-			return nil
-		})
-	}
-	// index membership through With(index)
+	// index membership through With(index); rows found there become tracked
+	member := map[string]map[uint32]bool{}
 	for _, x := range c.Idx {
 		name := x.Name
+		in := map[uint32]bool{}
 		c.C.Query(func(txn *column.Txn) error {
-			in := map[uint32]bool{}
 			txn.With(name).Range(func(idx uint32) { in[idx] = true; w.Track(idx) })
-			for _, o := range offs {
-				if !w.IsTracked(o) {
-					continue
-				}
-				if flavor == 0 && ix[o] != nil {
-					continue
-				}
-				if ix[o] == nil {
-					ix[o] = Ev{}
-				}
-				ix[o][name] = in[o]
-			}
 			return nil
 		})
+		member[name] = in
+	}
+	// point reads (QueryAt) for every tracked row that has not been read inside Range
+	c.C.Query(func(txn *column.Txn) error {
+		for _, o := range offs {
+			if !w.IsTracked(o) {
+				continue
+			}
+			fl := flavor
+			if fl == 1 {
+				if vals[o] != nil {
+					continue
+				}
+				fl = 0
+			}
+			txn.QueryAt(o, func(r column.Row) error {
+				if vals[o] == nil {
+					v := Ev{}
+					for _, d := range c.Cols {
+						v[d.Name] = c.ReadRow(txn, r, d, fl)
+					}
+					vals[o] = v
+				}
+				if flavor == 0 {
+					m := Ev{}
+					for _, x := range c.Idx {
+						m[x.Name] = r.Bool(x.Name)
+					}
+					ix[o] = m
+				}
+				return nil
+			})
+		}
+		return nil
+	})
+	for _, o := range offs {
+		if !w.IsTracked(o) || (flavor == 0 && ix[o] != nil) {
+			continue
+		}
+		m := Ev{}
+		for _, x := range c.Idx {
+			m[x.Name] = member[x.Name][o]
+		}
+		ix[o] = m
 	}
 	sort.Slice(offs, func(i, j int) bool { return offs[i] < offs[j] })
 	tr, filler := w.runs(offs)
